@@ -591,6 +591,163 @@ def probe_stop(ctx):
     return None
 
 
+# ----------------------------------------------------------------------------- fits that end early, on a used estimator
+
+def iterative_zoo(rng):
+    """the five regressors that alternate between two sub-problems, USED DIRECTLY (KoopmanPipeline and LmiHinfZpkMeta clone
+    their regressor at every fit, so the history of the regressor object itself is only visible here); random parameters"""
+    def supply(g):      # 'l2 gain at most g' for 2 states, 1 input (the default supply rate admits no model at all)
+        return np.block([[np.eye(2) / g, np.zeros((2, 1))], [np.zeros((1, 2)), -g * np.eye(1)]])
+    sr, mi = rng.choice([0.8, 0.9, 1.1]), rng.choice([2, 3])
+    al, ra = rng.choice([1, 2]), rng.choice([1, 0.5])
+    g = rng.choice([2.0, 4.0, 8.0])
+    return [
+        ('LmiEdmdSpectralRadiusConstr', lambda: lmi.LmiEdmdSpectralRadiusConstr(
+            spectral_radius=sr, max_iter=mi, solver_params=dict(SOLVER))),
+        ('LmiDmdcSpectralRadiusConstr', lambda: lmi.LmiDmdcSpectralRadiusConstr(
+            spectral_radius=sr, max_iter=mi, solver_params=dict(SOLVER))),
+        ('LmiEdmdHinfReg', lambda: lmi.LmiEdmdHinfReg(alpha=al, ratio=ra, max_iter=mi, solver_params=dict(SOLVER))),
+        ('LmiDmdcHinfReg', lambda: lmi.LmiDmdcHinfReg(alpha=al, ratio=ra, max_iter=mi, solver_params=dict(SOLVER))),
+        ('LmiEdmdDissipativityConstr', lambda: lmi.LmiEdmdDissipativityConstr(
+            supply_rate=supply(g), max_iter=mi, solver_params=dict(SOLVER))),
+    ]
+
+
+class SolveTap:
+    """the circumstances of ONE fit, reproducible for a second estimator: the state of the stop flag in front of the fit,
+    optionally a stop request arriving after the n-th solved sub-problem; while active it counts the sub-problems handed to
+    the solver and keeps the objective values of those that came back with a value (the harness's own record of what THIS
+    fit computed). The flag is put back afterwards (the library never resets it: known finding F-stop)."""
+
+    def __init__(self, stop_before=False, stop_after=None):
+        self.stop_before, self.stop_after = stop_before, stop_after
+        self.n, self.values, self.status = 0, [], []
+
+    def __enter__(self):
+        import picos
+        self._picos, self._orig, self._flag = picos, picos.Problem.solve, lmi.polite_stop
+        tap, orig = self, self._orig
+
+        def solve(prob, *a, **k):
+            out = orig(prob, *a, **k)
+            tap.n += 1
+            try:
+                tap.status.append(str(prob.last_solution.claimedStatus))
+            except Exception:
+                tap.status.append('?')
+            try:
+                tap.values.append(float(prob.value))
+            except Exception:
+                tap.values.append(None)
+            if tap.stop_after is not None and tap.n >= tap.stop_after:
+                lmi.polite_stop = True          # what the SIGINT handler does, arriving while the fit is running
+            return out
+        picos.Problem.solve = solve
+        lmi.polite_stop = bool(self.stop_before)
+        return self
+
+    def __exit__(self, *exc):
+        self._picos.Problem.solve = self._orig
+        lmi.polite_stop = self._flag
+        return False
+
+
+def is_subsequence(xs, ys):
+    it = iter(ys)
+    return all(any(x == y for y in it) for x in xs)
+
+
+def early_end_history(ctx, name, make, n_more):
+    """ONE directly used iterative regressor: an ordinary fit, then further fits under random circumstances that may end the
+    alternation at any point (stop requested in front of the fit / arriving after the n-th solved sub-problem; a solver
+    iteration budget, set with set_params, that may or may not suffice for sub-problem A of iteration 0; ordinary). After
+    every fit (i) all fitted attributes are compared with a fresh clone fitted on the same data under the same circumstances
+    and (ii) the objective log is compared with the harness's own record of the sub-problems solved during THIS fit."""
+    rng = ctx.rng
+    D = data_sets(rng, 'regressor')
+    z = {'name': name, 'tol': 1e-6, 'tags': {'lmi': True, 'iterative': True}}
+    est = make()
+    hist, fails = [], []
+    last_i, had_success = None, False
+    for step in range(1 + n_more):
+        if step == 0:
+            circ = ('ordinary',)
+        elif step == 1:
+            # the class of history this sweep exists for: a fit that cannot get far, right after one that did
+            circ = rng.choice([('stop-before',), ('budget', rng.choice([1, 2, 4]))])
+        else:
+            circ = rng.choice([('ordinary',), ('stop-before',), ('stop-after', rng.choice([1, 2, 3])),
+                               ('budget', rng.choice([1, 3, 6, 9, 11, 14, 40]))])
+        i = rng.choice([j for j in range(len(D)) if j != last_i])
+        last_i = i
+        X, kw = D[i]
+        if circ[0] == 'budget':
+            est.set_params(solver_params=dict(SOLVER, max_iterations=circ[1]))
+        elif step > 0 and rng.random() < 0.5:
+            est.set_params(solver_params=dict(SOLVER))
+        budget = est.get_params()['solver_params'].get('max_iterations')
+        label = f'fit({i}) [{" ".join(str(c) for c in circ)}' + (f'; solver budget {budget}]' if budget and circ[0] != 'budget' else ']')
+        tap_kw = {'stop_before': circ[0] == 'stop-before', 'stop_after': circ[1] if circ[0] == 'stop-after' else None}
+        fresh = sklearn.base.clone(est)
+        err_used = err_fresh = None
+        with SolveTap(**tap_kw) as tap:
+            try:
+                est.fit(X, **kw)
+            except Exception as ex:
+                err_used = type(ex).__name__
+        with SolveTap(**tap_kw) as tap_fresh:
+            try:
+                fresh.fit(X, **kw)
+            except Exception as ex:
+                err_fresh = type(ex).__name__
+        hist.append(label + (f' raised {err_used}' if err_used else ''))
+        ctx.count('early_end:fits')
+        tags = {'estimator': name, 'part': 'early-end', 'circumstances': circ[0]}
+        if err_used or err_fresh:
+            if err_used != err_fresh:
+                fails.append((f'{label}: the used estimator {"raised " + err_used if err_used else "fitted"} where a fresh clone '
+                              f'under the same circumstances {"raised " + err_fresh if err_fresh else "fitted"}', tags))
+            had_success = False
+            continue
+        log_ = getattr(est, 'objective_log_', None)
+        n_log = len(log_) if isinstance(log_, list) else None
+        # what the harness saw: sub-problems 0, 2, 4, .. are the 'A' problems; one objective is logged per A problem that the
+        # solver reports as solved to optimality
+        seen = [v for j, v in enumerate(tap.values) if j % 2 == 0 and tap.status[j] == 'optimal' and v is not None]
+        ended_early = not seen
+        if ended_early:
+            ctx.count('early_end:no_objective_logged' + ('_after_successful_fit' if had_success else ''))
+        ctx.count('early_end:' + circ[0])
+        # (i) like with like: a fresh clone, same data, same flag state, same stop request, same budget
+        d = same_fit(z, est, fresh)
+        if d:
+            fails.append((f'{label} on an estimator with history: the fitted state differs from a fresh estimator with the same '
+                          f'parameters fitted on the same data under the same circumstances (attributes: {d}); used: '
+                          f'n_iter_={getattr(est, "n_iter_", None)}, objective_log_={log_}; fresh: n_iter_='
+                          f'{getattr(fresh, "n_iter_", None)}, objective_log_={getattr(fresh, "objective_log_", None)}',
+                          dict(tags, attr=d.split(',')[0].split('.')[0])))
+        # (ii) the log describes THIS fit: its entries are objective values of sub-problems the solver returned during this
+        # fit, in order, at most one per pair of sub-problems
+        if n_log is None:
+            fails.append((f'{label}: fit returned without a list objective_log_ (got {log_!r})', dict(tags, attr='objective_log_')))
+        elif n_log > (tap.n + 1) // 2 or not is_subsequence([float(v) for v in log_], tap.values):
+            fails.append((f'{label}: objective_log_ = {log_} holds values that were not computed during this fit ({tap.n} '
+                          f'sub-problem(s) went to the solver and returned the values {tap.values}): the log is left over from '
+                          'an earlier fit on other data', dict(tags, attr='objective_log_')))
+        elif [float(v) for v in log_] != seen:
+            fails.append((f'{label}: objective_log_ = {log_}, but the first sub-problems of the iterations solved to optimality '
+                          f'during this fit had the objective values {seen} (solver status per sub-problem: {tap.status})',
+                          dict(tags, attr='objective_log_')))
+        if tap.n == 0 and np.any(np.asarray(est.coef_) != 0):
+            fails.append((f'{label}: no sub-problem was solved, but coef_ is not the all-zero fall-back (left over from an '
+                          'earlier fit)', dict(tags, attr='coef_')))
+        if tap.n != tap_fresh.n:
+            fails.append((f'{label}: the used estimator sent {tap.n} sub-problem(s) to the solver, a fresh clone {tap_fresh.n}',
+                          dict(tags, attr='n_iter_')))
+        had_success = bool(seen)
+    return hist, fails, [np.asarray(X).tolist() for X, _ in D]
+
+
 def run(ctx):
     ctx.rule = ('for every estimator class of the package (lifting functions, pipelines, 7 centre generators, kernel '
                 'approximations, Tsvd, regressors incl. LMI with cvxopt): random histories of fit(d_i) / read-only calls / '
@@ -598,10 +755,23 @@ def run(ctx):
                 'the fitted state (deep by-value digest of all fitted attributes incl. nested estimators) is compared '
                 'with a fresh clone fitted on the same data; parameters and input arrays are digested around every '
                 'call; a systematic sweep (every listed parameter value: set_params, re-fit, compare with a fresh clone; another '
-                'instance fitted in between); read-only calls from 3 threads compared with sequential answers; a stop-request probe')
+                'instance fitted in between); read-only calls from 3 threads compared with sequential answers; a stop-request probe; '
+                'fits that END EARLY on a used estimator: each of the five iterative LMI regressors (spectral radius EDMD / DMDc, '
+                'H-infinity EDMD / DMDc, dissipativity; random parameters) is used DIRECTLY, fitted ordinarily and then fitted '
+                'again on other data under random circumstances that may end the alternation at any point (stop requested in '
+                'front of the fit or arriving after the n-th solved sub-problem, a solver iteration budget set with set_params '
+                'that may not suffice for the first sub-problem, ordinary); after every fit ALL fitted attributes '
+                '(objective_log_, n_iter_, stop_reason_, coef_, P_, ...) are compared with a fresh clone fitted on the same data '
+                'under the same circumstances (same flag state: known finding F-stop is not re-reported), and objective_log_ '
+                'must equal the objective values of the first sub-problems the solver returned as optimal DURING THIS FIT '
+                '(recorded by the harness at the picos.Problem.solve boundary); no solved sub-problem => all-zero coef_')
     ctx.explanation = ('level "other": the Lean machine (theorems C15_*) states which histories must be indistinguishable; '
                        'this check executes real histories and verifies the implementation respects those equalities. '
-                       'Bit-exact for deterministic estimators, tolerance for KMeans / GaussianMixture / SDP solver.')
+                       'Bit-exact for deterministic estimators, tolerance for KMeans / GaussianMixture / SDP solver. '
+                       'C15_overwrite / C15_history_independent_partial demand that a fit OVERWRITES every fitted attribute '
+                       'whatever path it takes: the early-end sweep drives the real iterative regressors through the short '
+                       'paths (nothing solved, first sub-problem not optimal, stop between sub-problems) on estimators that '
+                       'already carry a fitted state, with an expectation for the objective log computed by the harness itself.')
     ctx.proof_obligations('Properties.C15', THEOREMS)
     Z = zoo(ctx.rng, ctx.tier == 'thorough')
     reps = 1 if ctx.tier == 'quick' else 6
@@ -631,6 +801,19 @@ def run(ctx):
             ctx.count('thread_checks')
             if why:
                 ctx.fail(f"{z['name']}: {why}", {'estimator': z['name']}, {'estimator': z['name'], 'part': 'threads'})
+    # fits that end early (stop request, solver budget) on directly used iterative regressors with a history
+    for name, make in iterative_zoo(ctx.rng):
+        for r in range(1 if ctx.tier == 'quick' else 4):
+            out = ctx.attempt(f'early-end history of {name}', lambda: early_end_history(ctx, name, make, 3 if ctx.tier == 'quick' else 6))
+            if out is None:
+                continue
+            hist, fails, data = out
+            ctx.count('early_end:histories')
+            ctx.record_case({'estimator': name, 'params': {k: v for k, v in make().get_params().items()}, 'history': hist}, True)
+            for why, tags in fails:
+                ctx.fail(f'{name}: {why}', {'estimator': name, 'params': {k: v for k, v in make().get_params().items()},
+                                            'history': hist, 'fit_kwargs': {'n_inputs': 1, 'episode_feature': True},
+                                            'data': data}, tags)
     res = probe_stop(ctx)
     if res:
         ctx.fail(res[0], {'probe': 'stop_request'}, res[1])
